@@ -51,6 +51,12 @@ def variants(rng, tier):
                 out.append(("stored-flip", meth.decode(), [g]))
                 g = RG.G("file", b"st%d" % n, data=data, method=meth, level=1); g.avail = rng.randrange(n)
                 out.append(("stored-trunc", meth.decode(), [g]))
+                # more bytes stored than the header declares, length and CRC recorded for the declared part: what is produced is exactly
+                # that part, so the member is good (and the next header is found after all the stored bytes)
+                for k in sorted(set([1, n // 2, n - 1]) - {0}):
+                    if k < n:
+                        g = RG.G("file", b"sl%d_%d" % (n, k), data=data[:n - k], method=meth, payload=data, level=rng.choice([0, 1, 2]))
+                        out.append(("stored-slack", meth.decode(), [g, RG.G("file", b"after", data=b"ok")]))
         g = RG.G("file", b"zero_len_big", data=b"abc", method=meth, level=1); g.length = 0
         out.append(("declared-0", meth.decode(), [g]))
         g = RG.G("file", b"huge", data=b"abc", method=meth, level=1); g.length = 0xFFFFFFFF
